@@ -636,6 +636,13 @@ class Engine:
             if name not in self.promoted_cache:
                 self.promoted_cache[name] = self.run_body(self.P.bodies[name], [], None, keep_frame=True)
             return self.promoted_cache[name]
+        # a named constant of the crate (`const rc::DATA_OFFSET`, possibly an inline const block of it): evaluate its MIR body
+        for cand in (t, t.split('::', 1)[1] if '::' in t else t):
+            b = self.P.bodies.get(cand)
+            if b is not None and b.is_promoted is False and b.header.startswith('const '):
+                if cand not in self.promoted_cache:
+                    self.promoted_cache[cand] = self.run_body(b, [], None, keep_frame=True)
+                return self.promoted_cache[cand]
         m = re.match(r'^ZeroSized: (.*)$', t)
         if m:
             return Agg(type_head_name(m.group(1)))
@@ -822,7 +829,7 @@ class Engine:
             return (~a) & MASK
         if op == 'Neg':
             if isinstance(a, OffsetTok):
-                return OffsetTok(a.path, -a.sign)
+                return OffsetTok(a.path, -a.sign, a.tag)
             if is_sym(a):
                 return -a
             return (-a) & MASK
